@@ -8,7 +8,8 @@
 //   A  dispatch_after / dispatch_after_f: runs exactly once, never before `when`
 //   T  timer sources (one-shot and repeating, three clocks, leeways, ties, suspend/resume churn from another thread):
 //      never before start; data >= 1; sum of dispatch_source_get_data so far <= boundaries start + k*interval passed at
-//      the handler's clock reading; every live timer whose start is well past has fired
+//      the handler's clock reading; every live (not cancelled) timer whose start is well past has fired; some timers are
+//      cancelled from another thread around their fires
 //   R  dispatch_source_set_timer replacing the settings in situations where no handler invocation can be in flight:
 //      (a) source suspended across the old deadline, (b) serial target queue blocked across the old deadline,
 //      (c) from inside the handler; afterwards the handler must follow only the new settings
@@ -60,7 +61,7 @@ struct tm_s {
 	_Atomic uint64_t start, interval, total; // settings the handler is judged against
 	_Atomic int fires, early, over, zero, gen; // gen: number of set_timer calls so far
 	_Atomic uint64_t bad_t, bad_data, bad_total, last_t, early_t, early_data, early_start;
-	int suspended, churn;
+	int suspended, churn, cancelled;
 	uint64_t leeway; int64_t nd; uint64_t ni; // new delay / interval for the reconfiguration
 	dispatch_semaphore_t unblock, blocked;
 };
@@ -87,7 +88,7 @@ static void on_fire(struct tm_s *x) {
 }
 
 struct action { uint64_t at; int what; struct tm_s *x; };
-enum { ACT_SUSPEND, ACT_RESUME, ACT_RECONF, ACT_BLOCK, ACT_UNBLOCK };
+enum { ACT_SUSPEND, ACT_RESUME, ACT_RECONF, ACT_BLOCK, ACT_UNBLOCK, ACT_CANCEL };
 static int cmp_action(const void *a, const void *b) {
 	const struct action *x = a, *y = b; return x->at < y->at ? -1 : x->at > y->at;
 }
@@ -140,6 +141,8 @@ int main(int argc, char **argv) {
 					acts[nacts++] = (struct action){ at, ACT_SUSPEND, x }; at += 1 + below(60);
 					acts[nacts++] = (struct action){ at, ACT_RESUME, x }; at += 1 + below(60);
 				}
+			} else if (below(6) == 0) { // cancel around the fires
+				acts[nacts++] = (struct action){ below(350), ACT_CANCEL, x };
 			}
 		} else {
 			// old settings: due at +30..60 ms (one-shot or fast repeating); replaced at +120..200 ms by a start >= +450 ms
@@ -174,6 +177,7 @@ int main(int argc, char **argv) {
 			dispatch_semaphore_wait(x->blocked, DISPATCH_TIME_FOREVER);
 			break;
 		case ACT_UNBLOCK: dispatch_semaphore_signal(x->unblock); break;
+		case ACT_CANCEL: dispatch_source_cancel(x->ds); x->cancelled = 1; break;
 		case ACT_RECONF:
 			// a handler invocation that started before the suspend / block has long finished (>= 60 ms ago)
 			reconfigure(x, x->nd, x->ni);
@@ -205,7 +209,7 @@ int main(int argc, char **argv) {
 		uint64_t now = clk(x->clock);
 		int due = now > x->start && now - x->start > 120 * MS;
 		int expect_new = x->kind != K_PLAIN; // the reconfigured start is always well past by now
-		if (!x->suspended && due && (x->total == 0) && (x->kind == K_PLAIN || x->gen == 2)) {
+		if (!x->suspended && !x->cancelled && due && (x->total == 0) && (x->kind == K_PLAIN || x->gen == 2)) {
 			nfail++; printf("FAIL %s-never-fired clock=%d start=%llu now=%llu interval=%llu fires=%d set_timer_calls=%d\n", kind, x->clock,
 					(unsigned long long)x->start, (unsigned long long)now, (unsigned long long)x->interval, x->fires, x->gen);
 		} else if (x->kind == K_PLAIN) t_fired += x->fires > 0;
